@@ -255,13 +255,14 @@ DCovar(a) ==
 DExtrema(a) ==
   LET A == H(a) IN
   Step("Extrema", TRUE, FALSE, {a}, <<>>, "ok", <<>>,
-       A.r >= 1 => /\ AlgoWhichMax(A) \in ArgMax(A)
+       (A.r >= 1 /\ A.c >= 1) => /\ AlgoWhichMax(A) \in ArgMax(A)
                    /\ A.e[AlgoWhichMax(A)[1]][AlgoWhichMax(A)[2]] = MaxV(A))
 
 SignedVals == {-1, 0, 1}          \* for "Vals <- SignedVals" in a configuration (a cfg cannot spell negative numbers)
 Z00 == [r |-> 0, c |-> 0, e |-> <<>>]
 Sentinels == {Z00, Mk(1, 1, LAMBDA i, j : 7), Mk(3, 3, LAMBDA i, j : 7)}
-Shapes(S) == {Z00} \cup UNION {{[r |-> r, c |-> c, e |-> e] : e \in [1..r -> [1..c -> S]]} : r \in 1..DMax, c \in 1..DMax}
+\* every shape 0..DMax x 0..DMax, the degenerate r x 0 / 0 x c included (one matrix each)
+Shapes(S) == UNION {{[r |-> r, c |-> c, e |-> e] : e \in [1..r -> [1..c -> S]]} : r \in 0..DMax, c \in 0..DMax}
 
 Init == /\ heap \in {f \in [Ids \cup {OutId} -> Shapes(Vals) \cup Sentinels] :
                        f[OutId] \in Sentinels /\ \A id \in Ids : f[id] \in Shapes(Vals)}
